@@ -74,6 +74,22 @@ def twin_curve(c, mode):
     raise RuntimeError("harness: unknown twin mode " + mode)
 
 
+_SUBS = {}
+
+
+def as_subclass(obj):
+    """the same object as an instance of a trivial user subclass (`class MyPJ(PointJacobi): pass`, `class MyPoint(Point): pass`);
+    INFINITY stays the singleton"""
+    E = ec()
+    if obj is E.INFINITY:
+        return obj
+    base = E.PointJacobi if isinstance(obj, E.PointJacobi) else E.Point
+    if base not in _SUBS:
+        _SUBS[base] = type("My" + base.__name__, (base,), {})
+    obj.__class__ = _SUBS[base]
+    return obj
+
+
 class Spec:
     """description of an operand; `tok` is its wire token, `make()` builds a fresh real object"""
 
